@@ -74,6 +74,15 @@ def main():
     if a.replay:
         data = json.load(open(a.replay))
         scn = data['scenario']
+        if scn.get('parallel'):
+            tr1, _, e1 = L.run_schedule(scn, watchdog=20)
+            tr2, _, e2 = L.run_schedule(scn, parallel_names=tuple(scn['parallel']), watchdog=60)
+            l1 = sorted((t['path'], t['dt'], t['start']) for t in L.ledger(tr1) if t['start'] is not None)
+            l2 = sorted((t['path'], t['dt'], t['start']) for t in L.ledger(tr2) if t['start'] is not None)
+            same = l1 == l2 and (e1 is None) == (e2 is None)
+            L.emit_result({'status': 'not-reproduced' if same else 'reproduced',
+                           'failed': [] if same else ['serial and parallel runs hand over different timesteps']})
+            return
         tr, eng, err = L.run_schedule(scn)
         fails = oracle(prop, tr, eng, scn, err)
         L.emit_result({'status': 'reproduced' if fails else 'not-reproduced', 'failed': fails[:5],
@@ -119,6 +128,40 @@ def main():
             failures.append({'id': '%s.bounded.schedule#%d: %s' % (prop, i, fails[0][:160]), 'replay': rp,
                              'failed': fails[:3]})
             if len(failures) >= 3:
+                break
+    if prop == 'C02' and not failures:
+        # the timestep a process REQUESTS is the one it is handed, also when the process runs in its own OS process:
+        # adaptive-timestep scenarios run serially and with one process parallel must hand over the same timesteps
+        prng = random.Random('%s-parallel' % a.seed)
+        done = 0
+        tries = 0
+        while done < (4 if a.tier == 'quick' else 40) and tries < 2000:
+            tries += 1
+            scn = L.gen_schedule(prng, a.tier)
+            scripted = [p['name'] for p in scn['procs'] if p.get('dts') and len(set(p['dts'])) > 1]
+            if not scripted or scn.get('flipper'):
+                continue
+            done += 1
+            evaluations += 1
+            tr1, eng1, err1 = L.run_schedule(scn, watchdog=20)
+            led1 = [(t['path'], t['dt'], t['start']) for t in L.ledger(tr1) if t['start'] is not None]
+            tr2, eng2, err2 = L.run_schedule(scn, parallel_names=(scripted[0],), watchdog=60)
+            led2 = [(t['path'], t['dt'], t['start']) for t in L.ledger(tr2) if t['start'] is not None]
+            if L.in_shrink_region(tr1) or L.in_sametime_region(tr1):
+                continue
+            fails = []
+            if (err1 is None) != (err2 is None):
+                fails.append('serial run %s, run with %s parallel %s' % (err1 and err1[1], scripted[0], err2 and err2[1]))
+            elif sorted(led1) != sorted(led2):
+                d1 = [x for x in led1 if x not in led2][:3]
+                d2 = [x for x in led2 if x not in led1][:3]
+                fails.append('with %s in its own OS process it is handed other timesteps than it requests: (path, timestep, start) '
+                             'serial %s, parallel %s' % (scripted[0], d1, d2))
+            if fails:
+                scn2 = dict(scn)
+                scn2['parallel'] = [scripted[0]]
+                rp = L.write_replay(a.out, prop, 'par%d' % done, scn2, fails, extra={'driver': 'bounded.sched', 'prop': prop})
+                failures.append({'id': '%s.bounded.parallel#%d: %s' % (prop, done, fails[0][:200]), 'replay': rp, 'failed': fails[:3]})
                 break
     L.emit_result({'status': 'violated' if failures else 'ok', 'evaluations': evaluations,
                    'distinct_nontrivial': len(nontrivial), 'failures': failures, 'samples': samples,
